@@ -160,7 +160,17 @@ fn run_program(spec: &J) -> J {
         }
     }
     let fns = vrl::stdlib::all();
-    let external = ExternalEnv::default();
+    let external = match spec.get("env_kinds").and_then(|x| x.as_object()) {
+        Some(m) => {
+            // event typed as an object whose listed fields have the given scalar kinds (bit masks as in tables.rs)
+            let mut fields: BTreeMap<vrl::value::kind::Field, Kind> = BTreeMap::new();
+            for (k, v) in m {
+                fields.insert(k.as_str().into(), tables::kind_of(v.as_u64().unwrap_or(0) as u8));
+            }
+            ExternalEnv::new_with_kind(Kind::object(Collection::from(fields)), Kind::object(Collection::empty()))
+        }
+        None => ExternalEnv::default(),
+    };
     let compiled = panic::catch_unwind(panic::AssertUnwindSafe(|| vrl::compiler::compile_with_external(source, &fns, &external, config)));
     let compiled = match compiled {
         Err(e) => {
